@@ -684,3 +684,15 @@ def bounded(opts):
                 "multisets compared with the input, reopened catalog compared too",
                 evaluations=len(res), distinct_nontrivial=len(res), violations=[dict(id=f"bounded:{n}", detail=d) for n, d in fails][:12],
                 samples=[n for n, _, _ in res[:3]], wall_s=round(time.time() - t0, 2), note="real library; labelled bounded, not counted as proved")
+
+
+# the unit flag (degrees / radian), the column names and the chunk size given to a catalog constructor reach the reader
+# (the C18 unit on the reader constructors, run here as well: a lost `degrees=` converts radian input a second time)
+def _register_shared():
+    from . import C18 as _C18
+    unit(P, "Reader.__init__", fuc=["yaw.catalog.readers:DataReader.__init__", "yaw.catalog.readers:DataFrameReader.__init__", "yaw.catalog.readers:FitsReader.__init__",
+                                    "yaw.catalog.readers:HDFReader.__init__", "yaw.catalog.readers:ParquetReader.__init__"],
+         cases=[dict(cls=c, given=True, degrees=d, opt=o) for c in ("DataFrameReader", "FitsReader", "HDFReader", "ParquetReader") for d in (False, True) for o in (False, True)])(_C18.u_reader_init)
+
+
+_register_shared()
